@@ -65,7 +65,7 @@ def _alarm(_sig, _frm):
     raise Watchdog
 
 
-LOADER_STATS = {"max_entries_per_char_x100": 0, "budget_violations": 0}
+LOADER_STATS = {"max_entries_per_char_x100": 0, "budget_violations": 0, "budget_blown_beyond_bounds": 0}
 # measured on the unchanged tree (evidence key loader_function_entries_per_character_x100): at most ~2 200 entries per
 # character (stacked counted repetitions unrolled by the optimizer); the budget is ~10x that plus a constant
 BUDGET_PER_CHAR = 20_000
@@ -149,6 +149,10 @@ def judge(text: str, source: str, acc: Acc, viol_keys: dict) -> None:
         # three non-terminating loads are witness enough; each further one would burn the whole budget again
         acc.count("skipped_after_three_step_budget_violations")
         return
+    if LOADER_STATS["budget_blown_beyond_bounds"] >= 3 and len(text) > 2048:
+        # same economy for texts beyond the stated bounds (abstentions): a tree that spins on them would keep this worker busy for hours
+        acc.count("skipped_after_three_blown_budgets_beyond_bounds")
+        return
     for optimized in (False, True):
         cls, detail = classify(text, optimized)
         acc.count("loads")
@@ -164,8 +168,10 @@ def judge(text: str, source: str, acc: Acc, viol_keys: dict) -> None:
                 LOADER_STATS["budget_violations"] += 1
             else:
                 acc.count("abstain.beyond_stated_bounds")
+                LOADER_STATS["budget_blown_beyond_bounds"] += 1
                 continue
         if cls == "watchdog":
+            LOADER_STATS["budget_blown_beyond_bounds"] += 1
             if len(text) <= 2048 and nesting(text) <= 40 and max_count(text) <= 64:
                 acc.inconclusive.append(f"loader watchdog on {text[:80]!r}")
             continue
